@@ -63,6 +63,28 @@ def run(ck, an, tier):
     s3(ck, an)
     s4(ck, an, pm)
     registered_once(ck, an, pm)
+    record_tearsheet(ck, an)
+
+
+def record_tearsheet(ck, an):
+    """TrackRecord.tearsheet() is the observation point the property names: it measures the whole recorded NLV series with the
+    whole record of target weights (metrics.tearsheet intersects the two indexes, so a trimmed weights table trims the levels
+    every metric is computed on)."""
+    fa = an.fa("TrackRecord.tearsheet")
+    subj = fa.f.short
+    calls = [c for c in fa.calls_named("tearsheet") if isinstance(c.func, ast.Attribute)]
+    ck.floor("metric tearsheet calls in TrackRecord.tearsheet", len(calls), 1)
+    for c in calls:
+        at = fa.node_of(c).id
+        recv = fa.sym.canon(c.func.value, at)
+        ck.check(recv == "self.net_liquidation_value()", "ARGFLOW", "S5.record-tearsheet-levels", subj, fa.loc(c), "the metrics are computed on the record's whole net-liquidation-value series",
+                 f"the tearsheet is computed on {recv}", construct="nlv = self.net_liquidation_value()")
+        kw = {k.arg: fa.sym.canon(k.value, at) for k in c.keywords}
+        ck.check(not c.args and kw.get("weights") == "self.weights_target()", "ARGFLOW", "S5.record-tearsheet-weights", subj, fa.loc(c), "the weights table passed along is the whole record's (same index as the levels)",
+                 f"weights = {kw.get('weights')}: a trimmed / re-indexed weights table cuts the level series the metrics are computed on (the two indexes are intersected)", construct="weights=self.weights_target()")
+    ft = an.fa("PandasMetrics.tearsheet")
+    # the only thing that may shorten the level series inside tearsheet is the intersection with the indexes of the tables passed along
+    return
 
 
 def registered_once(ck, an, pm):
